@@ -50,7 +50,7 @@ type Case struct {
 	Steps []Step     `json:"steps"`
 }
 
-var ops = []string{"body", "body_dep", "dep_func", "dep_func_samelen", "dep_method", "dep_method_samelen", "recvmix", "ignore_u1000", "two_files", "iface_use", "generic", "pure", "nonnil", "pad", "local", "ignore", "initialism", "rangeint", "conf_pkg", "conf_root", "conf_rm", "flag_go", "flag_tags", "flag_tests", "flag_checks", "goos", "patterns", "touch", "revert", "clock", "tagfile", "osfiles", "test_files", "gomod_go", "rerun"}
+var ops = []string{"body", "body_dep", "dep_func", "dep_func_samelen", "dep_method", "dep_method_samelen", "recvmix", "ignore_u1000", "two_files", "iface_use", "generic", "common", "test_body", "pure", "nonnil", "pad", "local", "ignore", "initialism", "rangeint", "conf_pkg", "conf_root", "conf_rm", "flag_go", "flag_tags", "flag_tests", "flag_checks", "goos", "patterns", "touch", "revert", "clock", "tagfile", "osfiles", "test_files", "gomod_go", "rerun"}
 
 var goVersions = []string{"", "1.21", "1.22", "1.20", "1.23"}
 var checkSets = []string{"", "all", "inherit,-SA4018", "SA*,U1000", "all,-U1000"}
@@ -153,6 +153,14 @@ func apply(st *state, step Step, history []state) int64 {
 		p.IgnoreU = !p.IgnoreU
 	case "two_files":
 		p.TwoFiles = !p.TwoFiles
+	case "common":
+		p.Common = (p.Common + 1 + a%2) % 3
+	case "test_body":
+		// an edit that touches only a file of the test variant
+		p.TestBody++
+		if !p.Test {
+			p.Test = true
+		}
 	case "iface_use":
 		p.IfaceUse = !p.IfaceUse
 	case "generic":
